@@ -315,7 +315,6 @@ func (c *Ctx) classifyType(t types.Type) string {
 
 // guardKinds classifies the branch conditions whose TRUE edge dominates blk.
 func (c *Ctx) guardKinds(fn *ssa.Function, blk *ssa.BasicBlock) []string {
-	lab := c.Labels()
 	var out []string
 	for _, b := range fn.Blocks {
 		iff, ok := b.Instrs[len(b.Instrs)-1].(*ssa.If)
@@ -326,35 +325,51 @@ func (c *Ctx) guardKinds(fn *ssa.Function, blk *ssa.BasicBlock) []string {
 		if !(t == blk || t.Dominates(blk)) || len(t.Preds) != 1 {
 			continue
 		}
-		switch cnd := iff.Cond.(type) {
-		case *ssa.Lookup:
-			if u, ok := cnd.X.(*ssa.UnOp); ok {
+		out = append(out, c.condKinds(iff.Cond, 0)...)
+	}
+	return out
+}
+
+// condKinds names the declassifier(s) a boolean value is the success of: a
+// registry lookup, a comma-ok assertion, an equality with a type variable —
+// or a call of a one-result helper of the module that returns such a value.
+func (c *Ctx) condKinds(cond ssa.Value, depth int) []string {
+	lab := c.Labels()
+	var out []string
+	switch cnd := cond.(type) {
+	case *ssa.Lookup:
+		if u, ok := cnd.X.(*ssa.UnOp); ok {
+			if g, ok := u.X.(*ssa.Global); ok {
+				out = append(out, "registry:"+g.Name())
+			}
+		}
+	case *ssa.Extract:
+		if ta, ok := cnd.Tuple.(*ssa.TypeAssert); ok && ta.CommaOk && cnd.Index == 1 {
+			out = append(out, "assert:"+c.classifyType(ta.AssertedType))
+		}
+		if lk, ok := cnd.Tuple.(*ssa.Lookup); ok && lk.CommaOk {
+			if u, ok := lk.X.(*ssa.UnOp); ok {
 				if g, ok := u.X.(*ssa.Global); ok {
 					out = append(out, "registry:"+g.Name())
 				}
 			}
-		case *ssa.Extract:
-			if ta, ok := cnd.Tuple.(*ssa.TypeAssert); ok && ta.CommaOk && cnd.Index == 1 {
-				out = append(out, "assert:"+c.classifyType(ta.AssertedType))
-			}
-			if lk, ok := cnd.Tuple.(*ssa.Lookup); ok && lk.CommaOk {
-				if u, ok := lk.X.(*ssa.UnOp); ok {
+		}
+	case *ssa.BinOp:
+		if cnd.Op == token.EQL {
+			for _, side := range []ssa.Value{cnd.X, cnd.Y} {
+				if u, ok := side.(*ssa.UnOp); ok {
 					if g, ok := u.X.(*ssa.Global); ok {
-						out = append(out, "registry:"+g.Name())
-					}
-				}
-			}
-		case *ssa.BinOp:
-			if cnd.Op == token.EQL {
-				for _, side := range []ssa.Value{cnd.X, cnd.Y} {
-					if u, ok := side.(*ssa.UnOp); ok {
-						if g, ok := u.X.(*ssa.Global); ok {
-							if t := lab.TypeGlobal(g); t != nil {
-								out = append(out, "type=="+c.classifyType(t))
-							}
+						if t := lab.TypeGlobal(g); t != nil {
+							out = append(out, "type=="+c.classifyType(t))
 						}
 					}
 				}
+			}
+		}
+	case *ssa.Call:
+		if f := cnd.Common().StaticCallee(); f != nil && depth < 3 && c.P.InModule(f) && f.Blocks != nil && f.Signature.Results().Len() == 1 {
+			if rv := singleReturn(f); rv != nil {
+				out = append(out, c.condKinds(rv, depth+1)...)
 			}
 		}
 	}
@@ -478,6 +493,20 @@ func ruleC05e(c *Ctx) []*report.Result {
 						m["special"] = append(m["special"], b)
 					case hm:
 						m["methods"] = append(m["methods"], b)
+					default:
+						// a test moved into a boolean helper
+						for _, k := range c.condKinds(x, 0) {
+							switch {
+							case strings.HasPrefix(k, "registry:"):
+								m["registry"] = append(m["registry"], b)
+							case strings.HasPrefix(k, "assert:"), strings.HasPrefix(k, "type=="):
+								kk := k[strings.IndexAny(k, ":=")+1:]
+								kk = strings.TrimPrefix(kk, "=")
+								if kk == "safevalue" || kk == "rstring" || kk == "rbytes" || kk == "safewrap" || kk == "unsafewrap" {
+									m[kk] = append(m[kk], b)
+								}
+							}
+						}
 					}
 				}
 			}
@@ -772,4 +801,208 @@ func ruleC05g(c *Ctx) []*report.Result {
 		r.Undecide(fmt.Sprintf("found %d reflective dispatch routes (floor 2)", routes))
 	}
 	return []*report.Result{r}
+}
+
+func init() { register("C06.g", ruleC06g) }
+
+// ruleC06g: a recognised wrapper is acted upon. C02.b/C05.e make sure the
+// wrapper types are tested on every route and that nothing else installs the
+// safe override; this rule closes the other direction: where a test for the
+// Safe (Unsafe) wrapper type succeeds, the safe (unsafe) override is
+// installed before anything is printed, the operand is reported as handled,
+// and what is printed is the wrapped value — field 0 of the one-field
+// wrapper struct, one level deeper.
+func ruleC06g(c *Ctx) []*report.Result {
+	r := report.NewResult("C06.g", "on the success edge of every test for the Safe/Unsafe wrapper type in the printer: the override of that side is installed in the guarded region and dominates every call there that can write; a boolean result is set to true; a reflective print of the content prints Field(0) of the tested value at depth+k, k>=1", 8)
+	safeFam, _ := c.installers("override", 1)
+	unsafeFam, _ := c.installers("override", 2)
+	if len(safeFam) == 0 || len(unsafeFam) == 0 {
+		r.Undecide("override installers not found")
+		return []*report.Result{r}
+	}
+	tests := 0
+	for _, fn := range c.P.ModuleFunctions() {
+		if recvNamed(fn) != tPP || fn.Blocks == nil {
+			continue
+		}
+		name := shortFn(fn.String())
+		for _, b := range fn.Blocks {
+			iff, ok := b.Instrs[len(b.Instrs)-1].(*ssa.If)
+			if !ok {
+				continue
+			}
+			side := ""
+			for _, k := range c.condKinds(iff.Cond, 0) {
+				switch k {
+				case "type==safewrap", "assert:safewrap":
+					side = "safe"
+				case "type==unsafewrap", "assert:unsafewrap":
+					side = "unsafe"
+				}
+			}
+			if side == "" {
+				continue
+			}
+			T := b.Succs[0]
+			tests++
+			fam := safeFam
+			if side == "unsafe" {
+				fam = unsafeFam
+			}
+			pos := c.P.Pos(iff.Pos())
+			if pos == "" || strings.HasSuffix(pos, ":0") {
+				pos = c.P.Pos(fn.Pos())
+			}
+			construct := name + " / " + side + " wrapper recognised @" + c.P.Pos(firstPos(T))
+			var region []*ssa.BasicBlock
+			if len(T.Preds) == 1 { // otherwise the success edge joins other paths at once: nothing is done for the wrapper
+				for _, x := range fn.Blocks {
+					if x == T || T.Dominates(x) {
+						region = append(region, x)
+					}
+				}
+			}
+			// (a) the installer
+			var inst *ssa.Call
+			for _, x := range region {
+				for _, ins := range x.Instrs {
+					if call, ok := ins.(*ssa.Call); ok {
+						if f := call.Common().StaticCallee(); f != nil {
+							if st, ok := fam[f]; ok && inst == nil {
+								if st.param < 0 {
+									inst = call
+								} else if k, ok := intConst(call.Common().Args[st.param]); ok && ((side == "safe" && k == 1) || (side == "unsafe" && k == 2)) {
+									inst = call
+								}
+							}
+						}
+					}
+				}
+			}
+			if inst == nil {
+				r.Fail(construct+" / override installed", pos, "the "+side+" wrapper is recognised but the "+side+" override is not installed on that branch: the content is classified as if it were not wrapped", nil, "")
+				continue
+			}
+			r.Ok(construct + ": override installed")
+			// the override stays installed while the content is printed: its
+			// restore is deferred (or follows every write of the region)
+			var earlyRestore *ssa.Call
+			if refs := inst.Referrers(); refs != nil {
+				for _, ref := range *refs {
+					if rc, ok := ref.(*ssa.Call); ok && rc.Common().StaticCallee() != nil && len(rc.Common().Args) > 0 && rc.Common().Args[0] == ssa.Value(inst) {
+						earlyRestore = rc
+					}
+				}
+			}
+			printed, unwrapped := false, false
+			for _, x := range region {
+				for _, ins := range x.Instrs {
+					if ta, ok := ins.(*ssa.TypeAssert); ok {
+						if k := c.classifyType(ta.AssertedType); k == "safewrap" || k == "unsafewrap" {
+							unwrapped = true
+						}
+					}
+				}
+			}
+			// (b) writes after the installer; (d) what is printed
+			for _, x := range region {
+				for _, ins := range x.Instrs {
+					call, ok := ins.(*ssa.Call)
+					if !ok || call == inst {
+						continue
+					}
+					if f := call.Common().StaticCallee(); f != nil && c.P.InModule(f) && c.reachesWriter(f) {
+						if _, isInst := fam[f]; !isInst {
+							printed = true
+							if earlyRestore != nil {
+								r.Check(instrBefore(call, earlyRestore), construct+" / override in force while printing", c.P.Pos(earlyRestore.Pos()), "the override is restored before the content is printed (the restore must be deferred)")
+							}
+						}
+					}
+					f := call.Common().StaticCallee()
+					if f == nil || !c.P.InModule(f) || !c.reachesWriter(f) {
+						continue
+					}
+					if _, isInst := fam[f]; isInst {
+						continue
+					}
+					r.Check(instrBefore(inst, call), construct+" / printed under the override", c.P.Pos(call.Pos()), "a call that can write precedes the installation of the override")
+					// reflective print of the content
+					var rv, depth ssa.Value
+					for i, p := range f.Params {
+						if i >= len(call.Common().Args) {
+							break
+						}
+						if namedOf(p.Type()) == "reflect.Value" {
+							rv = call.Common().Args[i]
+						}
+						if bt, ok := p.Type().Underlying().(*types.Basic); ok && bt.Kind() == types.Int {
+							depth = call.Common().Args[i]
+						}
+					}
+					if rv != nil {
+						okField := false
+						if fc, ok := rv.(*ssa.Call); ok {
+							if g := fc.Common().StaticCallee(); g != nil && g.String() == "(reflect.Value).Field" {
+								if k, ok := intConst(fc.Common().Args[1]); ok && k == 0 {
+									if _, isP := fc.Common().Args[0].(*ssa.Parameter); isP {
+										okField = true
+									}
+								}
+							}
+						}
+						r.Check(okField, construct+" / prints the wrapped value", c.P.Pos(call.Pos()), "the value printed for a wrapper must be Field(0) of the tested value (the wrapper structs have one field)")
+					}
+					if rv != nil && depth != nil {
+						okDepth := false
+						if bo, ok := depth.(*ssa.BinOp); ok && bo.Op == token.ADD {
+							if _, isP := bo.X.(*ssa.Parameter); isP {
+								if k, ok := intConst(bo.Y); ok && k >= 1 {
+									okDepth = true
+								}
+							}
+						}
+						r.Check(okDepth, construct+" / one level deeper", c.P.Pos(call.Pos()), "the content of a wrapper is printed at depth+k with k >= 1: at depth 0 the methods of the content would not be consulted and the text would differ from fmt's")
+					}
+				}
+			}
+			r.Check(printed || unwrapped, construct+" / content printed", pos, "on this branch the wrapper is neither unwrapped for the code that follows nor is its content printed: the operand vanishes from the output")
+			// (c) handled
+			if res := fn.Signature.Results(); res.Len() == 1 {
+				if bt, ok := res.At(0).Type().Underlying().(*types.Basic); ok && bt.Kind() == types.Bool {
+					okHandled := false
+					for _, x := range region {
+						for _, ins := range x.Instrs {
+							switch y := ins.(type) {
+							case *ssa.Store:
+								if _, isAlloc := y.Addr.(*ssa.Alloc); isAlloc {
+									if cst, ok := y.Val.(*ssa.Const); ok && cst.Value != nil && cst.Value.String() == "true" {
+										okHandled = true
+									}
+								}
+							case *ssa.Return:
+								if cst, ok := y.Results[0].(*ssa.Const); ok && cst.Value != nil && cst.Value.String() == "true" {
+									okHandled = true
+								}
+							}
+						}
+					}
+					r.Check(okHandled, construct+" / reported as handled", pos, "the branch does not set the boolean result to true: the caller prints the wrapper a second time, as a struct")
+				}
+			}
+		}
+	}
+	if tests < 4 {
+		r.Undecide(fmt.Sprintf("only %d wrapper tests found in the printer (floor 4: Safe and Unsafe on the plain and on the reflective route)", tests))
+	}
+	return []*report.Result{r}
+}
+
+func firstPos(b *ssa.BasicBlock) token.Pos {
+	for _, ins := range b.Instrs {
+		if ins.Pos().IsValid() {
+			return ins.Pos()
+		}
+	}
+	return token.NoPos
 }
